@@ -103,6 +103,15 @@ CLAIMS = {
          "MultiSubscription/ZipSubscription and their _threads forms, and is_closed() sampled after every label on 12 timed operators, judged by "
          "the extracted predicates alg_ok / closed_sound_ok and compared with the model. PARTIAL: ref-count and finalizer subscriptions are "
          "decided under C11 / C15.", "DESIGN.md section 5 C17"),
+ "C01": ("Theorems: C01_pipeline_grammar (for every pipeline tree of any depth built from subjects - the same one possibly several times - cold "
+         "sources, chains of single-input operators and two-input operators, and every sequence of calls on the subjects, calls after a terminal "
+         "and repeated terminals included: the trace reaching the subscriber is items, at most one terminal, nothing after), with the "
+         "compositionality equations C01_chain_on_subtree / C01_two_inputs_on_subtrees, C01_two_inputs_any_timeline (any state, any merged "
+         "timeline), C01_flattening (merge_all family, any outer/inner behaviour), C01_groups (every group of group_by), C01_closure_idiom / "
+         "_grammar (.on_error(f).on_complete(g).subscribe(h) sees exactly the trace). Each run executes ~2e4 (thorough 2.5e5) random trees of depth "
+         "<= 3 (4) with adversarial call sequences on the real crate, with the probe and with the closure idiom, judges the implementation's "
+         "trace with the grammar predicate and compares it with the model's execution of the same tree. Scheduler-using operators are not "
+         "nodes of these trees (their traces are judged under C02 / C07-C09).", "DESIGN.md section 5 C01"),
  "C16": ("Theorems: C16_source_agrees_single / _double and C16_no_constant_answers (the model's back channel equals a table regenerated on "
          "every run from every `fn is_finished` body of /repo/src; no observer but the final subscriber answers a constant), "
          "C16_every_observer_forwards, C16_cut_reaches_producer (an early end anywhere in any chain of single-input operators, or behind either "
